@@ -222,6 +222,17 @@ def routing_obligations(prog, cname, rule, rel):
             if t not in good:
                 why.append(f"line {call.lineno}: `{U(call)[:80]}` is given `{t[:60]}`, not the {which} part of the hyper-parameter vector "
                            f"(`<theta>[self.{which}_slice]`)")
+        # the pairwise forms: self.cov(u, v, part), self.cov.gradient_terms(q, x, part), self.mean(q, part), self.mean.gradient(q, part)
+        for fname_, pos_, which in (("self.cov", 2, "cov"), ("self.cov.gradient_terms", 2, "cov"), ("self.mean", 1, "mean"), ("self.mean.gradient", 1, "mean")):
+            for call, st in rz.calls(lambda f, fname_=fname_: f == fname_):
+                if len(call.args) <= pos_:
+                    continue
+                n_calls += 1
+                t = U(rz.term(call.args[pos_], st))
+                good = {f"self.{which}_hyperpars"} | {f"{p_}[self.{which}_slice]" for p_ in params} | {f"self.hyperpars[self.{which}_slice]"}
+                if t not in good:
+                    why.append(f"line {call.lineno}: `{U(call)[:80]}` is given `{t[:60]}`, not the {which} part of the hyper-parameter vector "
+                               f"(`<theta>[self.{which}_slice]`)")
         # the stored parts are cut with the stored slices
         for st in ast.walk(fn):
             if isinstance(st, ast.Assign) and len(st.targets) == 1 and U(st.targets[0]) in ("self.cov_hyperpars", "self.mean_hyperpars"):
